@@ -59,4 +59,19 @@ def bincount (l : List Nat) (minlength : Nat := 0) : List Nat :=
   let m := max minlength (if l.isEmpty then 0 else l.foldl max 0 + 1)
   (List.range m).map (fun v => l.count v)
 
+/-- insert `x` before the first element `y` with `le x y` (stable insertion) -/
+def insertBy {α : Type} (le : α → α → Bool) (x : α) : List α → List α
+  | [] => [x]
+  | y :: ys => if le x y then x :: y :: ys else y :: insertBy le x ys
+
+/-- stable sort by structural recursion (what `np.argsort(kind='mergesort'|'stable')` and
+`sorted(...)` compute; quadratic, but kernel-reducible and easy to reason about) -/
+def isort {α : Type} (le : α → α → Bool) : List α → List α
+  | [] => []
+  | x :: xs => insertBy le x (isort le xs)
+
+/-- `np.argsort(keys, kind='stable')` -/
+def argsortStable (keys : List Int) : List Nat :=
+  (isort (fun (a b : Int × Nat) => decide (a.1 ≤ b.1)) keys.zipIdx).map (·.2)
+
 end PhyVerif.Np
